@@ -20,6 +20,10 @@ pub const RAW_IDS: [u32; 5] = [0, 1, 2, 255, u32::MAX];
 pub struct NetCtx {
     pub member_sets: Vec<Vec<u32>>,
     pub only: Option<Value>,
+    /// Large-frame mode: instead of the boundary alphabet, send values whose bincode encoding is
+    /// 4095/4096/4097/~9000 bytes (around the obvious buffer sizes) mixed with small values.
+    pub large: bool,
+    pub large_sizes: Vec<usize>,
 }
 
 impl NetCtx {
@@ -31,6 +35,20 @@ impl NetCtx {
                 vec![vec![0, 1], vec![255, 0, 2]]
             },
             only: None,
+            large: false,
+            large_sizes: vec![],
+        }
+    }
+    pub fn new_large(thorough: bool) -> Self {
+        NetCtx {
+            member_sets: if thorough { vec![vec![0, 1], vec![2, 255, u32::MAX]] } else { vec![vec![0, 1]] },
+            only: None,
+            large: true,
+            large_sizes: if thorough {
+                vec![4094, 4095, 4096, 4097, 4098, 8191, 8192, 8193, 9000, 16385, 70000]
+            } else {
+                vec![4095, 4096, 4097, 9000]
+            },
         }
     }
     fn wants(&self, case: &Value) -> bool {
@@ -50,6 +68,24 @@ pub struct NetInfo {
 
 pub trait Payload: Clone + PartialEq + Debug + 'static {
     fn alphabet() -> Vec<Self>;
+    /// A value whose bincode encoding has (about) `enc_bytes` bytes, if the type can grow.
+    fn large(_enc_bytes: usize) -> Option<Self> {
+        None
+    }
+}
+
+/// Debug text, shortened for big values (keeps keys / evidence small but still distinguishing).
+fn sh<T: Debug>(t: &T) -> String {
+    let s = format!("{t:?}");
+    if s.len() > 160 {
+        let head: String = s.chars().take(48).collect();
+        format!("{head}...[{} bytes of Debug text, hash {:x}]", s.len(), vf_explore::hash_of(&s))
+    } else {
+        s
+    }
+}
+fn shv<T: Debug>(v: &[T]) -> String {
+    format!("[{}]", v.iter().map(sh).collect::<Vec<_>>().join(", "))
 }
 
 impl Payload for i64 {
@@ -67,6 +103,10 @@ impl Payload for String {
             "x".repeat(300),
         ]
     }
+    fn large(enc: usize) -> Option<Self> {
+        // bincode: u64 length + bytes
+        Some("L".repeat(enc.saturating_sub(8)))
+    }
 }
 impl Payload for TOpt {
     fn alphabet() -> Vec<Self> {
@@ -81,6 +121,10 @@ impl Payload for TOpt {
 impl Payload for Vec<u16> {
     fn alphabet() -> Vec<Self> {
         vec![vec![], vec![0], vec![u16::MAX], vec![1, u16::MAX], vec![0, 0]]
+    }
+    fn large(enc: usize) -> Option<Self> {
+        // bincode: u64 length + 2 bytes per element
+        Some((0..(enc.saturating_sub(8) / 2)).map(|i| (i % 65521) as u16).collect())
     }
 }
 impl Payload for E3 {
@@ -118,8 +162,20 @@ impl Payload for TRes {
 }
 
 /// All 1- and 2-message sequences over the alphabet (all values, all ordered pairs).
-fn value_seqs<T: Payload>() -> Vec<Vec<T>> {
+fn value_seqs<T: Payload>(ctx: &NetCtx) -> Vec<Vec<T>> {
     let a = T::alphabet();
+    if ctx.large {
+        // [large, small] and [small, large, small] for every boundary length
+        let small = a[1].clone();
+        let mut out = vec![];
+        for &n in &ctx.large_sizes {
+            if let Some(l) = T::large(n) {
+                out.push(vec![l.clone(), small.clone()]);
+                out.push(vec![small.clone(), l, small.clone()]);
+            }
+        }
+        return out;
+    }
     let mut out: Vec<Vec<T>> = a.iter().map(|v| vec![v.clone()]).collect();
     for v1 in &a {
         for v2 in &a {
@@ -162,8 +218,8 @@ pub fn drive_o2o<T: Payload>(
     f: impl Fn(&[T]) -> (usize, Vec<T>),
 ) {
     let mut bad = false;
-    for msgs in value_seqs::<T>() {
-        let case = json!({"msgs": format!("{msgs:?}")});
+    for msgs in value_seqs::<T>(ctx) {
+        let case = json!({"msgs": shv(&msgs), "large": ctx.large});
         if !ctx.wants(&case) {
             continue;
         }
@@ -193,7 +249,7 @@ pub fn drive_o2o<T: Payload>(
             problem = check(&r);
         }
         let observed = match &r {
-            Ok((n, got)) => format!("wire={n} got={got:?}"),
+            Ok((n, got)) => format!("wire={n} got={}", shv(got)),
             Err(p) => format!("panic {p}"),
         };
         judge(flow, st, &mut bad, case, observed, problem);
@@ -222,8 +278,21 @@ pub fn drive_to_cluster<T: Payload>(
         // message sequences: (addressee, value)
         let mut seqs: Vec<Vec<(u32, T)>> = vec![];
         if bcast {
-            for vs in value_seqs::<T>() {
+            for vs in value_seqs::<T>(ctx) {
                 seqs.push(vs.into_iter().map(|v| (members[0], v)).collect());
+            }
+        } else if ctx.large {
+            // large to one member, small to ANOTHER member (and back)
+            for vs in value_seqs::<T>(ctx) {
+                for (i, d0) in members.iter().enumerate() {
+                    let d1 = members[(i + 1) % members.len()];
+                    seqs.push(
+                        vs.iter()
+                            .enumerate()
+                            .map(|(k, v)| (if k % 2 == 0 { *d0 } else { d1 }, v.clone()))
+                            .collect(),
+                    );
+                }
             }
         } else {
             for d in members {
@@ -244,7 +313,7 @@ pub fn drive_to_cluster<T: Payload>(
         for sender in &senders {
             for msgs in &seqs {
                 let case = json!({"members": members, "sender": sender, "bcast": bcast,
-                                  "msgs": format!("{msgs:?}")});
+                                  "msgs": shv(msgs), "large": ctx.large});
                 if !ctx.wants(&case) {
                     continue;
                 }
@@ -276,8 +345,8 @@ pub fn drive_to_cluster<T: Payload>(
                             .collect();
                         if dbg_sorted(&per_member[i]) != dbg_sorted(&exp) {
                             return Some(format!(
-                                "member {m} received {:?}, expected {:?} (tag = sender id, value exact, nothing for other members)",
-                                per_member[i], exp
+                                "member {m} received {}, expected {} (tag = sender id, value exact, nothing for other members)",
+                                shv(&per_member[i]), shv(&exp)
                             ));
                         }
                     }
@@ -294,7 +363,10 @@ pub fn drive_to_cluster<T: Payload>(
                     problem = check(&r);
                 }
                 let observed = match &r {
-                    Ok((w, pm)) => format!("wire_dests={w:?} per_member={pm:?}"),
+                    Ok((w, pm)) => format!(
+                        "wire_dests={w:?} per_member=[{}]",
+                        pm.iter().map(|v| shv(v)).collect::<Vec<_>>().join(", ")
+                    ),
                     Err(p) => format!("panic {p}"),
                 };
                 judge(flow, st, &mut bad, case, observed, problem);
@@ -315,11 +387,20 @@ pub fn drive_m2o<T: Payload>(
     for members in &ctx.member_sets {
         let mut cases: Vec<Vec<(u32, Vec<T>)>> = vec![];
         for s in members {
-            for vs in value_seqs::<T>() {
+            for vs in value_seqs::<T>(ctx) {
                 cases.push(vec![(*s, vs)]);
             }
         }
+        if ctx.large {
+            // large from one member, small from another (sender closures share the thread)
+            for vs in value_seqs::<T>(ctx) {
+                cases.push(vec![(members[0], vec![vs[0].clone()]), (members[1], vs[1..].to_vec())]);
+            }
+        }
         for s1 in members {
+            if ctx.large {
+                break;
+            }
             for s2 in members {
                 if s1 == s2 {
                     continue;
@@ -332,7 +413,8 @@ pub fn drive_m2o<T: Payload>(
             }
         }
         for sends in &cases {
-            let case = json!({"members": members, "sends": format!("{sends:?}")});
+            let case = json!({"members": members, "large": ctx.large,
+                "sends": format!("[{}]", sends.iter().map(|(s, v)| format!("({s}, {})", shv(v))).collect::<Vec<_>>().join(", "))});
             if !ctx.wants(&case) {
                 continue;
             }
@@ -348,7 +430,7 @@ pub fn drive_m2o<T: Payload>(
                         if *n != exp.len() {
                             Some(format!("{n} wire messages for {} sent", exp.len()))
                         } else if dbg_sorted(got) != dbg_sorted(&exp) {
-                            Some(format!("receiver got {got:?}, expected (sender id, value) = {exp:?}"))
+                            Some(format!("receiver got {}, expected (sender id, value) = {}", shv(got), shv(&exp)))
                         } else {
                             None
                         }
@@ -366,12 +448,45 @@ pub fn drive_m2o<T: Payload>(
                 problem = check(&r);
             }
             let observed = match &r {
-                Ok((n, got)) => format!("wire={n} got={got:?}"),
+                Ok((n, got)) => format!("wire={n} got={}", shv(got)),
                 Err(p) => format!("panic {p}"),
             };
             judge(flow, st, &mut bad, case, observed, problem);
         }
     }
+}
+
+// ------------------------------------------------------------------------------------------------
+// Large-frame section: run on ONE fresh thread (thread-local buffers of the generated send
+// closures start clean and are shared by everything that follows): every String / Vec<u16> flow
+// in large mode, each followed immediately by a flow of ANOTHER payload type on the same thread.
+pub fn large_frames(thorough: bool, nets: &'static [NetInfo], only: Option<(String, Value)>) -> Stats {
+    std::thread::spawn(move || {
+        let mut st = Stats::new();
+        let mut large = NetCtx::new_large(thorough);
+        let mut small = NetCtx::new(false);
+        small.member_sets = vec![vec![0, 1]];
+        let followers = ["n_o2o_i64", "n_o2m_e3", "n_m2o_res", "n_m2m_nested"];
+        let mut k = 0;
+        for n in nets.iter().filter(|n| n.ty == "string" || n.ty == "vecu16") {
+            if let Some((flow, case)) = &only {
+                if n.id != flow {
+                    continue;
+                }
+                large.only = Some(case.clone());
+            }
+            (n.run)(&large, &mut st);
+            if only.is_none() {
+                if let Some(f) = nets.iter().find(|m| m.id == followers[k % followers.len()]) {
+                    (f.run)(&small, &mut st);
+                }
+                k += 1;
+            }
+        }
+        st
+    })
+    .join()
+    .expect("large-frame thread panicked")
 }
 
 // ------------------------------------------------------------------------------------------------
